@@ -868,6 +868,12 @@ class SymEval:
                 isinstance(b, (list, tuple)) and not (
                     a and isinstance(a[0], (Rat,)) ):
             return list(a) + list(b)
+        if isinstance(op, ast.Mult):
+            # Python sequence repetition: [x] * 3, 3 * (x,)
+            for s_, k_ in ((a, b), (b, a)):
+                if isinstance(s_, (list, tuple)) and isinstance(k_, int) and \
+                        not isinstance(k_, bool):
+                    return type(s_)(list(s_) * k_)
         if isinstance(a, (list, tuple, Rec)):
             a = self.to_array(a)
         if isinstance(b, (list, tuple, Rec)):
@@ -1412,6 +1418,20 @@ class SymEval:
             for i in range(n):
                 out.entries[(i, i)] = A.const(1)
             return out
+        if q == 'numpy.diag' and len(args) == 1 and not kwargs:
+            v = args[0]
+            if isinstance(v, (list, tuple)):
+                v = self.to_array(v)
+            if isinstance(v, SArray) and len(v.shape) == 1 and not v.sample:
+                n_ = v.shape[0]
+                out = SArray((n_, n_), {}, A.const(0))
+                for i in range(n_):
+                    out.entries[(i, i)] = v.get((i,))
+                return out
+            if isinstance(v, SArray) and len(v.shape) == 2 and v.shape[0] == v.shape[1] and \
+                    not v.sample:
+                return SArray((v.shape[0],), {(i,): v.get((i, i)) for i in range(v.shape[0])})
+            raise Unsupported('np.diag of %r' % (v,))
         if q == 'numpy.cross':
             return self.cross(args[0], args[1])
         if q == 'numpy.dot':
